@@ -273,6 +273,9 @@ class scrypt(  # type: ignore[misc]
             raise NotImplementedError(
                 "scrypt $7$ hashes dont support non-ascii salts"
             ) from None
+        if b"$" in salt:
+            # the salt is written verbatim and "$" ends the salt field: such a hash could never be read back
+            raise NotImplementedError("scrypt $7$ hashes dont support salts containing '$'")
         return bascii_to_str(
             b"".join(
                 [
